@@ -45,19 +45,34 @@ CHECKS = {
    note="Dyadic parameters so float and rational arithmetic agree at boundaries. The 'only when enabled' clause (threshold 0 starts no rebalance task) is in server.go and is covered by the node-level check once built.", ref="3 C19"),
 }
 
-PENDING = {
- "C01": "check not built yet in this session (E4 component cluster planned)",
- "C06": "check not built yet in this session (E4 component cluster planned)",
- "C07": "check not built yet in this session",
- "C08": "check not built yet in this session",
- "C09": "check not built yet in this session",
- "C10": "check not built yet in this session",
- "C12": "check not built yet in this session",
- "C13": "check not built yet in this session",
- "C16": "check not built yet in this session",
- "C18": "check not built yet in this session",
- "C19": "check not built yet in this session",
-}
+CHECKS.update({
+ "C01": dict(level="exploration", engine="E4-sys", technique="exhaustive enumeration of placements x routing views x entry nodes x addressings on real proxy servers; Gray-code walk over every placement on a real gossiping cluster",
+   text="On three real proxy servers with every placement of upstreams of two endpoints, five routing-view policies, every entry node and 14 addressings no request is ever answered by an upstream of another endpoint; on a real 3-node cluster with real client listeners, after settling, every entry node serves the endpoint iff an upstream exists (else 502), for all 64 placements, also with requests in flight during each change.",
+   note="Schedules inside net/http, gorilla and yamux are free-running; lock-level interleavings of Select/AddConn/RemoveConn are enumerated by C15/C20.", ref="3 C01, 2.4"),
+ "C06": dict(level="fault_enumeration", engine="E4-sys", technique="exhaustive enumeration of all belief matrices x placements x entry x route x forwarded flag on real proxy servers, hop count from accepted connections",
+   text="For all 2^6 per-node belief matrices, all 2^3 real placements, every entry node, HTTP and TCP routes, fresh and already-forwarded requests (6144 cases; thorough also 2 and 4 nodes) a request crosses at most one inter-node hop, a local upstream is always used, an already forwarded request is never forwarded again, and the outcome is 200 from an upstream of the endpoint or 502.",
+   note="Hops are counted as connections accepted by the proxies (no keep-alive on either side).", ref="3 C06"),
+ "C07": dict(level="exploration", engine="E3-seq + E4-sys", technique="exhaustive grid of message compositions x empty messages x read-buffer patterns x transport fragmentation on the real WebSocket adapter; enumerated tunnel paths x sizes x closer on real nodes",
+   text="Every composition of an n-byte payload into WebSocket messages with up to two empty messages, 8 read-buffer patterns and 4 transport read limits is delivered exactly once and in order by the real adapter (never a (0,nil) read, close frame => error); 5 real tunnel paths x 4 sizes x empty write x closer deliver bytes intact and propagate close, releasing the upstream stream.",
+   note="Adapter half is deterministic and exhaustive in its grid; tunnel half is free-running.", ref="3 C07"),
+ "C08": dict(level="exploration", engine="E4-sys", technique="enumerated request/response grid (pairwise-complete quick, full cross product thorough) on a real 2-node cluster; enumerated gateway failure matrix",
+   text="Across method x escaped path x query x header set x body size x response shape x {local, forwarded} the upstream sees exactly the client's method, request-target, Host, headers and body and the client sees exactly the upstream's status, headers, body and trailer; undeterminable endpoint => 400, no/refusing/early-closing upstream => 502, slow upstream => 504, WebSocket upgrades (any spelling) outlive the timeout; same failure matrix for the agent reverse proxy.",
+   note="Hop-by-hop headers (Connection, X-Forwarded-For, x-piko-forward, Accept-Encoding, User-Agent, Content-Length/Transfer-Encoding) are allowed to differ. Finding D3 repaired by a fix: commit.", ref="3 C08"),
+ "C09": dict(level="exploration", engine="E4-sys", technique="exhaustive cross product of key configurations x token defects x presentations x every route registered on the live gin engines of a real server",
+   text="For each key configuration (HMAC, RSA, ECDSA, JWKS, combinations, with/without audience and issuer) a real server with that auth on all three ports refuses (401, sentinel upstream untouched) every token in the cross product of algorithm x signing key x tampering x exp x nbf x aud x iss x header presentation that an independent oracle says must be refused, on every registered route of every port.",
+   note="Routes come from gin's Routes() of the running servers; trailing-slash redirects are outside the alphabet.", ref="3 C09"),
+ "C10": dict(level="exploration", engine="E4-sys", technique="exhaustive grid of endpoint-claim sets x target namings x ports and tenant tables x signing keys x tenant headers on a real server",
+   text="7 endpoint-claim sets x 13 ways of naming the target x 2 token headers on the proxy port and x 5 endpoints on the listen port: a request is served iff the endpoint that actually serves it is permitted, and it is the endpoint named by the precedence rule; 3 tenant tables x default key on/off x 3 signers x 4 tenant headers: accepted iff the named tenant exists and its key signed the token (default key only without tenants).",
+   note="", ref="3 C10"),
+ "C16": dict(level="fault_enumeration", engine="E4-sys", technique="enumeration of every assignment and order of connection endings (6 kinds) over 2-3 upstream connections on a real server, with/without a request in flight",
+   text="After every ending (client close, go-away then close, go-away + proxied request then close, abrupt TCP close, server-side shed, token expiry, server shutdown) in every order, registry == routing table == published gossip entries == still-connected set and the open-session count matches; expiring tokens are closed at, not before, expiry unless disconnect-on-expiry is disabled.",
+   note="Liveness waits poll up to 15s and a miss is re-run twice before it is reported; quick tier thins the expiry combinations.", ref="3 C16"),
+ "C18": dict(level="fault_enumeration", engine="E4-sys", technique="enumeration of lost node x phase x SIGTERM/SIGKILL on a 3-node cluster whose lost node is a real piko server process built from the current tree",
+   text="For the lost node being the join seed or a later joiner, at each phase (idle, upstreams connected, requests in flight, second signal mid-shutdown), by SIGTERM or SIGKILL: the process exits within the grace period, survivors stop listing it as active (left after a graceful stop), no request is answered by a wrong endpoint, listeners reconnect through the load balancer and every survivor serves every endpoint again.",
+   note="Kill points are phase boundaries. Finding D4 repaired by a fix: commit.", ref="3 C18"),
+})
+
+PENDING = {}
 
 def main():
     checks = []
@@ -88,11 +103,12 @@ def main():
         "engines": [
             {"name": "E1-gmc", "path": "harness/internal/gw + harness/internal/mc", "serves_properties": ["C02", "C03", "C04", "C11", "C13", "C14"], "kind_free_text": "explicit-state model checker whose transition function is the real gossip code (replay-based successors, canonical-state dedup)"},
             {"name": "E2-sched", "path": "shims/verifshim/vsync + harness/internal/sched", "serves_properties": ["C05", "C15", "C20"], "kind_free_text": "cooperative scheduler + iterative preemption-bounded DFS over real lock acquisitions"},
-            {"name": "E3-seq", "path": "harness/cmd/vcheck/seq_*.go", "serves_properties": ["C05", "C12", "C13", "C15", "C17", "C19"], "kind_free_text": "exhaustive operation-sequence / input-grid enumeration against reference models"},
+            {"name": "E3-seq", "path": "harness/cmd/vcheck/seq_*.go", "serves_properties": ["C05", "C07", "C12", "C13", "C15", "C17", "C19"], "kind_free_text": "exhaustive operation-sequence / input-grid enumeration against reference models"},
+            {"name": "E4-sys", "path": "harness/internal/e4 + harness/cmd/vcheck/sys_*.go", "serves_properties": ["C01", "C06", "C07", "C08", "C09", "C10", "C16", "C18", "C19"], "kind_free_text": "enumerated configurations / fault points on real piko nodes (component clusters, in-process servers, a subprocess server for kill) on loopback"},
         ],
         "checks": checks,
         "not_applicable": na,
-        "notes": "fix: commits in /repo repair findings D1 (C05) and D2 (C17); known_findings.json lists recorded findings F1-F3.",
+        "notes": "fix: commits in /repo repair findings D1 (C05), D2 (C17), D3 (C08), D4 (C18), D6 (C13); known_findings.json lists recorded findings F1-F3 and the fixed entries.",
     }
     json.dump(m, open(os.path.join(ROOT, "MANIFEST.json"), "w"), indent=1)
     print("wrote MANIFEST.json with %d checks, %d not claimed" % (len(checks), len(na)))
